@@ -28,7 +28,7 @@ def _core_docs():
     D = []
     D.append(Doc([[H('**kern'), H('**text')], [sig('*clefG2', 'CLEF'), Null('*')], [sig('*M4/4', 'TIME_SIGNATURE'), Null('*')], [Bar(number='1'), Bar(number='1')],
                   [Note('4', pitch='c', decs=((3, 'L'),)), lyr('la')], [Note('8', dots=1, pitch='dd', decs=((3, 'J'), (3, ';'))), Null('.')],
-                  [Rest('4'), lyr('li')], [FieldComment('!x'), FieldComment('!y')], [Note('2', pitch='B', decs=((0, '('),)), lyr('lu')],
+                  [Rest('4'), lyr('li')], [FieldComment('!x'), FieldComment('!y')], [Note('2', dots=2, pitch='B', decs=((0, '('),)), lyr('lu')], [Rest('4', dots=3), Null('.')],
                   [Bar(number='2', type='||'), Bar(number='2', type='||')], [Note('16', mark='q', pitch='GG'), Null('.')], [Note('1', pitch='f'), lyr('le')],
                   [Bar(double=True), Bar(double=True)], [Op(T), Op(T)]]))
     D.append(Doc([[H('**kern'), H('**dynam'), H('**kern')], [sig('*clefF4', 'CLEF'), Null('*'), sig('*clefG2', 'CLEF')],
